@@ -25,7 +25,7 @@ from harness.common import fhex
 
 GEN_MODULES = ['llh']
 MODEL_TARGETS = ['model/M_Llh.vo', 'model/M_LlhPipe.vo']
-PROOF_TARGETS = ['proofs/P_Llh.vo', 'proofs/P_LlhValue.vo', 'proofs/P_LlhC1.vo', 'proofs/P_LlhCompose.vo']
+PROOF_TARGETS = ['proofs/P_LlhK.vo', 'proofs/P_LlhValue.vo', 'proofs/P_LlhC1.vo', 'proofs/P_LlhCompose.vo']
 LEVEL = 'proof'
 RULE = ('event sets with N\' in 0..3000 selected of N >= N\' events, 1-3 sources, 1-3 ratio factors; ratios '
         'log-uniform in [1e-6,1e13] plus exact 0 and zero-background events; compositions single / product / '
@@ -38,7 +38,7 @@ TRUSTED = [
     'axioms printed by Print Assumptions: ClassicalDedekindReals.sig_not_dec, sig_forall_dec, '
     'functional_extensionality_dep (Coq reals), Classical_Prop.classic (Coquelicot)',
     'translator/py2coq.py: per-element reading of the vectorised numpy formulas (mask subscripts erased, masks '
-    'become branch guards); kernels of G_llh.v pinned by the K_* lemmas of P_Llh.v',
+    'become branch guards); the value kernels of G_llh.v are pinned by the KV_* lemmas of P_LlhK.v',
     'hand model M_Llh.v / M_LlhPipe.v of masks, reductions, index plumbing and call order, validated by this '
     'correspondence on every run',
     'extraction (ExtrOcamlBasic only) and the hand-written OCaml driver/float record ocaml/common/numf.ml, '
@@ -660,10 +660,7 @@ def run_multi(ctx, rng, exe, opa, n):
         J = rng.choice([1, 2, 2, 3])
         K = rng.choice([1, 2, 3])
         a_jk = [[loguniform(rng, 1e-2, 1e2) for _ in range(K)] for _ in range(J)]
-        (shg_mgr, pmm) = World.source_world(K)
-        weights = st.StubWeights(a_jk, shg_mgr)
-        weights.calculate(None)
-        cases, worlds = [], []
+        cases = []
         for j in range(J):
             c = gen_case(ctx, rng, size=rng.choice([0, 1, 3, 8, 20]), kind=rng.choice(['stacked', 'stacked-product']))
             # same sources for all datasets of one analysis
@@ -675,19 +672,29 @@ def run_multi(ctx, rng, exe, opa, n):
                     c['pairs'] = [[k, i] for k in range(K) for i in sel_ids(c)]
             c['a_k'] = list(a_jk[j])
             cases.append(c)
-            worlds.append(World(c, weights=weights, dataset_idx=j))
-        dsw = DatasetSignalWeightFactorsService(weights)
-        m = MultiDatasetTCLLHRatio(pmm=pmm, minimizer=st.minimizer, src_detsigyield_weights_service=weights,
-                                   ds_sig_weight_factors_service=dsw, llhratio_list=[w.llh for w in worlds], cfg=st.cfg)
-        m.initialize_for_new_trial()
         Nmin = min(c['N'] for c in cases)
-        for ns in (0.0, rng.uniform(0, 0.9) * Nmin, -loguniform(rng, 1e-3, 0.3)):
-            with np.errstate(all='ignore'), warnings.catch_warnings():
-                warnings.simplefilter('ignore')
-                (v, _) = m.evaluate(np.array([ns], dtype=np.float64))
-            (f, _) = dsw.get_weights()
-            plan.append((cases, [float(x) for x in f], ns, float(v)))
-            ctx.count(f'multi:J={J}')
+        ns_list = (0.0, rng.uniform(0, 0.9) * Nmin, -loguniform(rng, 1e-3, 0.3))
+        try:
+            (shg_mgr, pmm) = World.source_world(K)
+            weights = st.StubWeights(a_jk, shg_mgr)
+            weights.calculate(None)
+            worlds = [World(c, weights=weights, dataset_idx=j) for j, c in enumerate(cases)]
+            dsw = DatasetSignalWeightFactorsService(weights)
+            m = MultiDatasetTCLLHRatio(pmm=pmm, minimizer=st.minimizer, src_detsigyield_weights_service=weights,
+                                       ds_sig_weight_factors_service=dsw, llhratio_list=[w.llh for w in worlds],
+                                       cfg=st.cfg)
+            m.initialize_for_new_trial()
+            for ns in ns_list:
+                with np.errstate(all='ignore'), warnings.catch_warnings():
+                    warnings.simplefilter('ignore')
+                    (v, _) = m.evaluate(np.array([ns], dtype=np.float64))
+                (f, _) = dsw.get_weights()
+                plan.append((cases, [float(x) for x in f], ns, float(v)))
+                ctx.count(f'multi:J={J}')
+        except Exception as ex:           # the implementation raised on a legal input
+            ctx.violation(SITE, 'raises-' + type(ex).__name__, f'{type(ex).__name__}: {ex}',
+                          case={'multi': [lean(c) for c in cases], 'ns': list(ns_list)}, impl=type(ex).__name__,
+                          predicate='evaluate returns the value for every legal input')
     # model pass 1: R_j of every dataset
     lines = [model_line(c, 0.0, opa) for (cases, f, ns, v) in plan for c in cases]
     out = common.ocaml_run(exe, lines) if lines else []
